@@ -627,6 +627,8 @@ pub fn profile(name: &str, tier: Tier) -> Option<Profile> {
             p.later_ops.append_bad = 8;
             p.later_ops.del_absent = 8;
             p.queries = Range(0, 1);
+            // the writer returned by a metric change refuses and accepts the same lengths
+            p.p_prepare = 0.25;
         }
         // degenerate data never breaks a build or a search
         "c20" => {
